@@ -76,6 +76,20 @@ pub struct Limits {
     pub max_wall_s: f64,
 }
 
+/// resident set size of this process in bytes (Linux), 0 if unknown
+pub fn rss_bytes() -> u64 {
+    std::fs::read_to_string("/proc/self/statm")
+        .ok()
+        .and_then(|s| s.split_whitespace().nth(1).and_then(|x| x.parse::<u64>().ok()))
+        .map(|pages| pages * 4096)
+        .unwrap_or(0)
+}
+
+/// memory cap of the explorer (bytes); a search that reaches it stops and is reported as capped
+pub fn rss_cap() -> u64 {
+    std::env::var("VERIF_RSS_CAP_GB").ok().and_then(|s| s.parse::<u64>().ok()).unwrap_or(20) * 1024 * 1024 * 1024
+}
+
 pub struct Report<A> {
     pub states: u64,
     pub transitions: u64,
@@ -211,6 +225,10 @@ pub fn explore<Sc: Scenario>(sc: &Sc, lim: &Limits, known_keys: &[String]) -> Re
             next.extend(fresh);
             if visited.len() > lim.max_states {
                 rep.capped = Some(format!("state cap {} hit at depth {}", lim.max_states, depth + 1));
+                break 'outer;
+            }
+            if rss_bytes() > rss_cap() {
+                rep.capped = Some(format!("memory cap {} GB hit at depth {} ({} states)", rss_cap() >> 30, depth + 1, visited.len()));
                 break 'outer;
             }
             if t0.elapsed().as_secs_f64() > lim.max_wall_s {
